@@ -120,7 +120,7 @@ def run(prop, tier, seed, t0):
             else:
                 cov['bounded_standins'].append({'harness': h['name'], 'bound': h['bound'], 'status': h['status'], 'wall_s': h['wall_s']})
             if h['status'] == 'FAILURE':
-                violations.append({'engine': 'kani', 'obligation': 'kani.' + h['name'], 'msg': 'Kani harness failed', 'text': h['output'][-6000:], 'witness': h.get('witness'), 'anchor': h.get('what')})
+                violations.append({'engine': 'kani', 'obligation': 'kani.' + h['name'], 'msg': 'Kani harness failed', 'text': h['output'][-6000:], 'witness': h.get('witness'), 'anchor': h.get('what'), 'paired_obligation': h.get('obligation')})
             elif h['status'] != 'SUCCESS':
                 undecided.append('kani harness %s: %s' % (h['name'], h['status']))
         for h in k['harnesses'][:4]:
@@ -129,6 +129,17 @@ def run(prop, tier, seed, t0):
 
     if cov['obligations'] == 0 and not violations:
         undecided.append('no obligation was generated for %s (vacuity guard)' % prop)
+
+    # ---- pair Verus failures with the counterexample of their Kani twin ------------------------------
+    kfail = {v.get('paired_obligation'): v for v in violations if v.get('engine') == 'kani' and v.get('paired_obligation')}
+    merged = []
+    for it in violations:
+        if it.get('engine', '').startswith('verus') and it.get('obligation') in kfail:
+            kv = kfail[it['obligation']]
+            it['witness'] = kv.get('witness')
+            it['text'] = (it.get('text') or '') + '\n--- paired Kani harness ' + kv['obligation'] + ' ---\n' + (kv.get('text') or '')[-3000:]
+            kv['_merged'] = True
+    violations = [v for v in violations if not v.get('_merged')]
 
     # ---- classify -----------------------------------------------------------------------------
     real = []
